@@ -60,6 +60,7 @@ type c1var struct {
 	shared    bool // written by closures or by other functions
 	minLen    int  // slices, strings: guaranteed minimum length
 	noCapture bool // must not be referenced from a function literal
+	noShadow  bool // named results: a bare return needs them unshadowed
 	fn        *c1fn
 	fdepth    int // function-literal nesting depth at the declaration
 	used      bool
@@ -549,8 +550,9 @@ func (g *c1gen) expr(t *c1typ, c c1ectx) (string, bool) {
 			}
 			return g.leaf(t, c)
 		default:
+			// one operand of a concatenation is of bounded length, so strings grow linearly at most
 			a, _ := g.nonConst(t, d)
-			b, _ := g.expr(t, d)
+			b := g.boundedStr(c)
 			if g.r.bool() {
 				a, b = b, a
 			}
@@ -595,6 +597,21 @@ func (g *c1gen) expr(t *c1typ, c c1ectx) (string, bool) {
 		return g.leaf(t, c)
 	}
 	return g.leaf(t, c)
+}
+
+// boundedStr: a string expression whose length does not depend on assignable variables.
+func (g *c1gen) boundedStr(c c1ectx) string {
+	if g.r.chance(30) {
+		if v := g.pickVar(g.T("string"), c, func(v *c1var) bool { return v.ro }); v != nil {
+			return v.name
+		}
+	}
+	if g.r.chance(30) {
+		if it := g.pickVar(g.T("int"), c, nil); it != nil {
+			return "string(rune(65 + uint(" + it.name + ")%26))"
+		}
+	}
+	return g.r.pick(c1StrLits)
 }
 
 func (g *c1gen) paren(s string) string {
